@@ -102,6 +102,9 @@ func (a *haAgg) common(res *haResult) {
 	c.Count("crashes", st.Crashes)
 	c.Count("crashes_between_attest_and_send", st.BetweenAP)
 	c.Count("commits_after_a_crash", st.CommitAfterCrh)
+	if st.ObsPropose > 0 {
+		c.Count("observation_lane_reproposed_different_block_after_restart", st.ObsPropose)
+	}
 	c.Count("partition_changes", res.Flips)
 	c.Count("distinct_node_positions_at_partition_changes", res.FlipPos)
 	c.Count("messages_delivered", res.Deliveries)
